@@ -175,6 +175,9 @@ class Model():
         An asset matching the name if it exists in the model.
         """
 
+        if any(asset is model_asset for model_asset in self.assets):
+            raise ValueError('Asset is already part of the model.')
+
         if not allow_duplicate_names and hasattr(asset, 'name') \
                 and asset.name in self.asset_names:
             # Refuse before anything is reserved for the asset
@@ -456,6 +459,10 @@ class Model():
         attacker        - the attacker to add
         attacker_id     - optional id for the attacker
         """
+
+        if any(attacker is model_attacker
+                for model_attacker in self.attackers):
+            raise ValueError('Attacker is already part of the model.')
 
         if attacker_id is not None:
             attacker.id = attacker_id
